@@ -152,21 +152,33 @@ package hwmon
 //@   params (devicePath)
 //@   modifies nothing
 //@   trusted "reads device/modalias; informational"
-//@ opaque func findPlatform
+//@ extern func regexp.MustCompile(str string) (re *regexp.Regexp)
+//@   functional reCompiled
+//@   effectfree
+//@   ensures re != nil
+//@   trusted "regexp: the compiled expression is a function of the pattern text (MustCompile panics on a pattern that does not compile; the one used here does)"
+//@ extern func (re *regexp.Regexp).FindString(s string) (m string)
+//@   functional reFind
+//@   effectfree
+//@   trusted "regexp: the leftmost match is a function of expression and subject"
+//@ func findPlatform
 //@   params (devicePath)
+//@   props C17
+//@   ensures[C17.platform] result == reFind(reCompiled(".*/platform/{}/.*"), devicePath)
 //@   modifies nothing
-//@   trusted "regexp.FindString on the device path"
 
 //@ pure fansOf(c gosensors.Chip, fs []fans.HwMonFan) bool = forall i int :: 0 <= i && i < len(fs) ==> fs[i].Index == i + 1 && fs[i].Config.HwMon != nil && fs[i].Config.HwMon.Index == i + 1 && fanCfgOK(c, fs[i].Config.HwMon) && (exists j int :: fanBound(c, j, fs[i].Config.HwMon))
 //@ pure sensorsOf(c gosensors.Chip, m map[int]*sensors.HwmonSensor) bool = forall k int :: k in m ==> 1 <= k && m[k] != nil && m[k].Index == k && (exists j int :: tempBound(c, j, m[k].Input))
 
 //@ func GetChips
 //@   props C17
+//@   ensures[C17.chips.platform] forall n int :: 0 <= n && n < len(result) ==> result[n] != nil && (exists i int :: 0 <= i && i < len(detectedChips()) && result[n].Path == detectedChips()[i].Path && (len(reFind(reCompiled(".*/platform/{}/.*"), detectedChips()[i].Path)) > 0 ==> result[n].Platform == reFind(reCompiled(".*/platform/{}/.*"), detectedChips()[i].Path)))
 //@   ensures[C17.chips.fans]    forall n int :: 0 <= n && n < len(result) ==> result[n] != nil && (exists i int :: 0 <= i && i < len(detectedChips()) && result[n].Path == detectedChips()[i].Path && fansOf(detectedChips()[i], result[n].Fans))
 //@   ensures[C17.chips.sensors] forall n int :: 0 <= n && n < len(result) ==> result[n] != nil && (exists i int :: 0 <= i && i < len(detectedChips()) && result[n].Path == detectedChips()[i].Path && sensorsOf(detectedChips()[i], result[n].Sensors))
 //@   modifies nothing
 //@   loop 1 "for i := 0; i < len(chips); i++"
 //@     invariant 0 <= i && i <= len(chips) && chips == detectedChips() && (arrayOf(list) == 0 || arrayOf(list) >= old(W))
 //@     invariant forall n int :: 0 <= n && n < len(list) ==> list[n] != nil && fresh(list[n])
+//@     invariant forall n int :: 0 <= n && n < len(list) ==> (exists ii int :: 0 <= ii && ii < i && list[n].Path == chips[ii].Path && (len(reFind(reCompiled(".*/platform/{}/.*"), chips[ii].Path)) > 0 ==> list[n].Platform == reFind(reCompiled(".*/platform/{}/.*"), chips[ii].Path)))
 //@     invariant forall n int :: 0 <= n && n < len(list) ==> (exists ii int :: 0 <= ii && ii < i && list[n].Path == chips[ii].Path && fansOf(chips[ii], list[n].Fans))
 //@     invariant forall n int :: 0 <= n && n < len(list) ==> (exists ii int :: 0 <= ii && ii < i && list[n].Path == chips[ii].Path && sensorsOf(chips[ii], list[n].Sensors))
